@@ -68,6 +68,13 @@ def program(n, d, lits=None):
         k = 1 if n >= 2 else 2
         ratio = pt.WideRatio(nums, dens[:k])
         ratio.denominatorFactors.extend(dens[k:])
+    elif grown == 3:
+        # the documented parameter names used as keywords
+        ratio = pt.WideRatio(numeratorFactors=nums, denominatorFactors=dens)
+    elif grown == 4:
+        ratio = pt.WideRatio(denominatorFactors=dens, numeratorFactors=nums)
+    elif grown == 5:
+        ratio = pt.WideRatio(nums, denominatorFactors=dens)
     else:
         ratio = pt.WideRatio(nums, dens)
     return pt.Seq(pt.App.globalPut(pt.Bytes("r"), ratio), pt.Int(1))
@@ -206,6 +213,10 @@ def run(tier):
                 items.append((n, d, versions[1:3], {-1: 1}))
                 items.append((n, d, versions[1:3], {-1: 2}))
                 nlit += 2
+                if n + d <= 4:
+                    for style in (3, 4, 5):     # keyword / reordered keyword / mixed call styles
+                        items.append((n, d, versions[1:2], {-1: style}))
+                        nlit += 1
     rep.bounds["literal_factor_programs"] = nlit
     rep.bounds["shapes"] = len(items) - nlit
     rep.bounds["versions"] = list(versions)
